@@ -332,6 +332,19 @@ func runEngVariant(prop string) runner {
 			}
 		}
 		if prop == "C05" {
+			// operator grouping against the published precedence table
+			for _, pp := range precedenceProbes() {
+				obs, err := runEngScenario(pp.S, true)
+				if err != nil {
+					return err
+				}
+				rep.count("precedence probes")
+				if obs.OracleMsg == "" && obs.Outcome == "nil" && obs.Fact.I64 != pp.Want {
+					rep.failKey(pp.Key, fmt.Sprintf("C05: %s evaluates to %d; grouped by the published precedence table it is %d", strings.TrimSpace(strings.Split(strings.Split(pp.S.Rules[0].Raw, "F.I64 = ")[1], ";")[0]), obs.Fact.I64, pp.Want), engCaseRec{pp.S, obs})
+					obs.OracleMsg = ""
+				}
+				emit(pp.S, obs)
+			}
 			// exhaustive grid of operator x kind x kind cells on a boundary-rich fact
 			nums := []string{"I", "I8", "I16", "I32", "I64", "U", "U8", "U16", "U32", "U64", "F32", "F64"}
 			isF := func(n string) bool { return n[0] == 'F' }
